@@ -46,8 +46,20 @@ fn render_seq(seq: &[Node], out: &mut String) {
 }
 
 fn text_node() -> BoxedStrategy<Node> {
-    prop::collection::vec(0usize..PIECES.len(), 0..3)
-        .prop_map(|v| Node::Text(v.into_iter().map(|i| PIECES[i]).collect::<String>()))
+    // pieces from the pool; one text in eight also takes a token of the library's own source
+    fn no_control(c: char) -> bool {
+        !c.is_control()
+    }
+    (prop::collection::vec(0usize..PIECES.len(), 0..3), prop::option::weighted(0.125, (crate::engine::dict::string_token(no_control, "a"), any::<bool>())))
+        .prop_map(|(v, tok)| {
+            let mut t = v.into_iter().map(|i| PIECES[i]).collect::<String>();
+            match tok {
+                Some((w, true)) => t.push_str(&w),
+                Some((w, false)) => t.insert_str(0, &w),
+                None => {}
+            }
+            Node::Text(t)
+        })
         .boxed()
 }
 
